@@ -662,6 +662,8 @@ def gen_history(seed: int, run: int, n_ops: int) -> list[dict]:
             if any(q["target"] == "fn_gate" for q in sites):
                 program.setdefault("input_params", {}).update({"double": r.random() < 0.5, "negate": r.random() < 0.5})
                 program["x64"] = False
+                for q_ in sites:
+                    q_.pop("cast32", None)  # single-precision program: the cast would be a no-op, the sites are equal
             op: dict = {"op": "convert", "program": program}
             if r.random() < 0.12:
                 if r.random() < 0.5:
